@@ -49,7 +49,13 @@ impl PxWorld {
             return p;
         }
         let s = self.snap();
-        let nu = self.users.len() as u64;
+        let nu = self.nplain as u64;
+        let mgr = nu + 1;
+        let mi = self.nplain;
+        // the manager contract first gets locked tokens (hence an energy entry) of its own
+        if step == 0 {
+            return format!("lock {} {} {}", mgr, pow10(18) * rng.range(1, 1000), *rng.pick(&[360u64, 720, 1440]));
+        }
         let u = rng.range(1, nu);
         let i = (u - 1) as usize;
         let one = BigUint::one();
@@ -62,7 +68,7 @@ impl PxWorld {
             };
             format!("lock {} {} {}", u, a, if rng.chance(1, 12) { 100 } else { *rng.pick(&opts) })
         };
-        if step < 3 || (s.u_lk[i].is_empty() && rng.chance(2, 3)) {
+        if step < 4 || (s.u_lk[i].is_empty() && rng.chance(2, 3)) {
             return lock_line(rng);
         }
         let weights = [
@@ -81,6 +87,7 @@ impl PxWorld {
             4,  // 12 incFarm
             4,  // 13 bad
             4,  // 14 transfer
+            9,  // 15 a call through the manager contract (original caller supplied) / by it / malformed
         ];
         let k = rng.weighted(&weights);
         let farm_of = |f: u8| if f == 0 { "L" } else { "W" };
@@ -228,6 +235,69 @@ impl PxWorld {
                 match Self::pick_from_bag(rng, bag) {
                     Some((n, have)) => format!("transfer {} {} {} {}:{}", u, to, if use_f { "wfarm" } else { "wlp" }, n, Self::amount_of(rng, &have)),
                     None => self.fallback(rng, &s, u),
+                }
+            }
+            15 => {
+                let farm_of_n = |n: u64| farm_of(self.fattr.get(&n).map(|a| a.farm).unwrap_or(0));
+                match rng.below(12) {
+                    // the user hands (part of) a wrapped farm position to the manager, which exits / claims for him
+                    0 | 1 | 2 | 3 | 4 => {
+                        let (n, have) = match Self::pick_from_bag(rng, &s.u_f[i]) {
+                            Some(x) => x,
+                            None => return self.fallback(rng, &s, u),
+                        };
+                        let a = Self::amount_of(rng, &have);
+                        // the manager redeems all of what it got, or a part (the rest stays with it for later)
+                        let b = if rng.chance(2, 3) { a.clone() } else { Self::amount_of(rng, &a) };
+                        let op = if rng.chance(3, 4) { "exitOb" } else { "claimOb" };
+                        self.pending.push(format!("{} {} {} {} {}:{}", op, mgr, u, farm_of_n(n), n, b));
+                        format!("transfer {} {} wfarm {}:{}", u, mgr, n, a)
+                    }
+                    // something the manager still holds, for a random user (not necessarily the one it came from)
+                    5 | 6 => match Self::pick_from_bag(rng, &s.u_f[mi]) {
+                        Some((n, have)) => {
+                            let op = if rng.chance(2, 3) { "exitOb" } else { "claimOb" };
+                            format!("{} {} {} {} {}:{}", op, mgr, u, farm_of_n(n), n, Self::amount_of(rng, &have))
+                        }
+                        None => self.fallback(rng, &s, u),
+                    },
+                    // the manager enters a farm with its own locked tokens in the name of the user
+                    7 => match Self::pick_from_bag(rng, &s.u_lk[mi]) {
+                        Some((k, have)) => {
+                            let a = (&have / rng.range(2, 50)).max(one.clone());
+                            format!("enterLOb {} {} L {}:{} -", mgr, u, k, a)
+                        }
+                        None => format!("lock {} {} 720", mgr, pow10(18) * rng.range(1, 1000)),
+                    },
+                    // wrapped LP handed to the manager: entered into the LP farm in the user's name, or removed by the
+                    // manager itself (removeLiquidityProxy has no original-caller argument)
+                    8 | 9 => {
+                        let (n, have) = match Self::pick_from_bag(rng, &s.u_w[i]) {
+                            Some(x) => x,
+                            None => return self.fallback(rng, &s, u),
+                        };
+                        let a = Self::amount_of(rng, &have);
+                        if rng.chance(1, 2) {
+                            self.pending.push(format!("enterWOb {} {} W {}:{} -", mgr, u, n, a));
+                        } else {
+                            self.pending.push(format!("removeLiq {} {}:{} 1 1", mgr, n, a));
+                        }
+                        format!("transfer {} {} wlp {}:{}", u, mgr, n, a)
+                    }
+                    // malformed: a plain user (not on the SC whitelist) names an original caller
+                    _ => {
+                        let other = rng.range(1, mgr);
+                        match Self::pick_from_bag(rng, &s.u_f[i]) {
+                            Some((n, have)) => {
+                                let op = if rng.chance(1, 2) { "exitOb" } else { "claimOb" };
+                                format!("{} {} {} {} {}:{}", op, u, other, farm_of_n(n), n, Self::amount_of(rng, &have))
+                            }
+                            None => match Self::pick_from_bag(rng, &s.u_lk[i]) {
+                                Some((k, have)) => format!("enterLOb {} {} L {}:{} -", u, other, k, Self::amount_of(rng, &have)),
+                                None => lock_line(rng),
+                            },
+                        }
+                    }
                 }
             }
             _ => format!(
